@@ -336,9 +336,23 @@ func runC10(c *sim.Ctx) *sim.Violation {
 	if fancy {
 		c.Count("probe.writer-also-offers-WriteString/WriteByte/ReadFrom")
 	}
+	// one time in six the accepting writer is a BUFFERED one: it also has Flush(),
+	// and flushing it would fail (the sink behind it is gone) - which is the
+	// program's business when IT flushes; Write accepts every byte it is given
+	var fl *flushWriter
+	if !fancy && t.Bool(1, 6) {
+		fl = &flushWriter{Writer: w}
+		c.Count("probe.accepting-writer-has-a-Flush-that-would-fail")
+	}
 	var n int64
 	var err error
-	if pi := sim.Guard(func() { n, err = p.WriteTo(wr(w)) }); pi != nil {
+	if pi := sim.Guard(func() {
+		if fl != nil {
+			n, err = p.WriteTo(fl)
+		} else {
+			n, err = p.WriteTo(wr(w))
+		}
+	}); pi != nil {
 		return sim.V("C10/"+typ+"/panic:"+pi.Site, "WriteTo panicked: %s\npacket: %s", pi.Value, a.Canon())
 	}
 	B := w.Buf
@@ -463,4 +477,15 @@ var C10 = &sim.Scenario{
 		return 60000
 	},
 	RunFn: runC10,
+}
+
+// flushWriter: Write goes to the link writer; Flush reports that the sink is gone.
+type flushWriter struct {
+	*link.Writer
+	Flushes int
+}
+
+func (f *flushWriter) Flush() error {
+	f.Flushes++
+	return errors.New("flush: the sink behind the buffer is gone")
 }
